@@ -603,6 +603,8 @@ class ServerTls(Server):
             cx.handshake()
             if cx.connected:  # handshake completed successfully
                 del self.cxes[ca]
+                if ca in self.ixes and self.ixes[ca] is not cx:
+                    self.closeIx(ca)  # replaced by newer connection from same ca
                 self.ixes[ca] = cx  # add to incoming connections
                 continue
             if cx.aborted:  # handshake completed unsuccessfully
